@@ -23,14 +23,47 @@ type replPair struct {
 // replaceChain walks a symbolic string expression from the outside in and returns the Replace steps applied
 // (outermost first) and the innermost operand.
 func replaceChain(s *core.Sym) (steps []replPair, inner *core.Sym) {
-	for s != nil && s.Op == "call" && (s.Name == "strings.Replace" || s.Name == "strings.ReplaceAll") && len(s.Args) >= 3 {
-		st := replPair{sym: s, all: s.Name == "strings.ReplaceAll" || (len(s.Args) == 4 && strings.HasPrefix(s.Args[3].String(), "-"))}
-		st.from = s.Args[1].Template()
-		st.to = s.Args[2].Template()
-		steps = append(steps, st)
-		s = s.Args[0]
+	for s != nil && s.Op == "call" {
+		switch {
+		case (s.Name == "strings.Replace" || s.Name == "strings.ReplaceAll") && len(s.Args) >= 3:
+			st := replPair{sym: s, all: s.Name == "strings.ReplaceAll" || (len(s.Args) == 4 && strings.HasPrefix(s.Args[3].String(), "-"))}
+			st.from = s.Args[1].Template()
+			st.to = s.Args[2].Template()
+			steps = append(steps, st)
+			s = s.Args[0]
+			continue
+		case s.Name == "(*strings.Replacer).Replace" && len(s.Args) == 2:
+			// strings.NewReplacer(old, new).Replace(x): every occurrence of old (one pair only: with several pairs
+			// the replacements are simultaneous, which no Replace chain expresses)
+			if pairs := replacerPairs(s.Args[0]); len(pairs) == 2 {
+				steps = append(steps, replPair{sym: s, all: true, from: pairs[0].Template(), to: pairs[1].Template()})
+				s = s.Args[1]
+				continue
+			}
+		}
+		break
 	}
 	return steps, s
+}
+
+// replacerPairs: the old/new arguments of the strings.NewReplacer call a Replacer value comes from (resolved
+// through package-level variables by the symboliser).
+func replacerPairs(r *core.Sym) []*core.Sym {
+	var out []*core.Sym
+	r.Walk(func(z *core.Sym) bool {
+		if z.Op == "call" && z.Name == "strings.NewReplacer" && out == nil {
+			for _, a := range z.Args {
+				if a.Op == "list" {
+					out = append(out, a.Args...)
+				} else {
+					out = append(out, a)
+				}
+			}
+			return false
+		}
+		return out == nil
+	})
+	return out
 }
 
 func (e *Env) expandingSym() *core.Symbolizer {
@@ -153,6 +186,43 @@ func c13(e *Env) {
 	}
 	if len(sp.declRename) == 0 {
 		ob3.Unknown("-", "declared-output rename not found")
+	}
+	// ---- R3b every file left in the temp dir is moved out
+	ob3b := r.Ob("R3", "finalize:every-extra-file-moved", "for every non-directory entry of the temp-dir walk the rename to its decoded destination is attempted: the callback cannot return for such an entry without having reached the rename (or failed)")
+	isExtra := nodeSet(sp.extraRename)
+	nCb := 0
+	for _, c := range g.Ctxs {
+		if !c.Callback || c.CallNode == nil || !c.CallNode.IsCallTo("path/filepath.Walk", "path/filepath.WalkDir") {
+			continue
+		}
+		var entry *core.Node
+		for _, n := range g.Nodes {
+			if n.Ctx == c && n.First && n.Instr != nil && n.Instr.Block() == c.Fn.Blocks[0] {
+				entry = n
+				break
+			}
+		}
+		if entry == nil {
+			continue
+		}
+		nCb++
+		notDir := func(m *core.Node) (core.AV, bool) {
+			if m.Call != nil && m.Call.IsInvoke() && m.Call.Method.Name() == "IsDir" {
+				return core.BoolAV(false), true
+			}
+			return core.Top, false
+		}
+		res := g.Run(core.Scenario{Start: entry, AtEntry: true, CallResult: notDir})
+		w := res.ReachesAvoiding(func(m *core.Node) bool { return m.Kind == core.KRet && m.Ctx == c }, func(m *core.Node) bool { return isExtra[m] })
+		ob3b.Check(w == nil, g.Where(entry), "not a directory ⇒ rename reached before the callback returns", "the walk callback can return for a regular file without moving it ("+func() string {
+			if w != nil {
+				return "return at " + g.Where(w)
+			}
+			return ""
+		}()+"): the file is then deleted with the temp dir - what the command wrote is lost, e.g. when something already exists at the destination")
+	}
+	if nCb == 0 {
+		ob3b.Unknown("-", "no modelled filepath.Walk callback in Execute's call tree")
 	}
 	// ---- R4 output dirs inside the temp dir before the command
 	ob4 := r.Ob("R4", "createDirs:out-dirs-in-temp", "before the command runs, <temp dir>/Dir(TempPath(x)) is created for every non-streaming output")
